@@ -5,6 +5,8 @@ open JT JT.Go JT.Gen.GoFrame
 
 theorem u16_pair (v : UInt16) : u16 [(v >>> (8 : UInt16)).toUInt8, v.toUInt8] = X.ok v := by
   have := u16_be16 v []; simpa using this
+theorem u16_cons2 (v : UInt16) (rest : Bytes) : u16 ((v >>> (8 : UInt16)).toUInt8 :: v.toUInt8 :: rest) = X.ok v := by
+  have := u16_be16 v rest; simpa using this
 theorem u32_quad (v : UInt32) : u32 (Go.be32 v) = X.ok v := by
   have := u32_be32 v []; simpa using this
 
@@ -12,48 +14,48 @@ theorem P0x8001_roundtrip (fuel : Nat) (t q : model_P0x8001) (j : jt808_JTMessag
     ∃ body, model_P0x8001_Encode fuel t = X.ok body ∧
       ∃ r, model_P0x8001_Parse fuel q { j with Body := body } = X.ok (r, none) ∧ r.RespondSerialNumber = t.RespondSerialNumber ∧ r.RespondID = t.RespondID ∧ r.Result = t.Result := by
   simp only [model_P0x8001_Encode, model_P0x8001_Parse, model_P0x8001_Parse_j1]
-  simp [make, makeCap, putU16At, putU32At, setIdx, Go.be16, sliceTo, sliceFrom, slice, idx, u16_pair, u32_quad]
+  simp [make, makeCap, putU16At, putU32At, setIdx, Go.be16, sliceTo, sliceFrom, slice, idx, u16_pair, u16_cons2, u32_quad]
 
 theorem P0x8801_roundtrip (fuel : Nat) (t q : model_P0x8801) (j : jt808_JTMessage) :
     ∃ body, model_P0x8801_Encode fuel t = X.ok body ∧
       ∃ r, model_P0x8801_Parse fuel q { j with Body := body } = X.ok (r, none) ∧ r.ChannelID = t.ChannelID ∧ r.ShootCommand = t.ShootCommand ∧ r.PhotoIntervalOrVideoTime = t.PhotoIntervalOrVideoTime ∧ r.SaveFlag = t.SaveFlag ∧ r.Resolution = t.Resolution ∧ r.VideoQuality = t.VideoQuality ∧ r.Intensity = t.Intensity ∧ r.Contrast = t.Contrast ∧ r.Saturation = t.Saturation ∧ r.Chroma = t.Chroma := by
   simp only [model_P0x8801_Encode, model_P0x8801_Parse, model_P0x8801_Parse_j1]
-  simp [make, makeCap, putU16At, putU32At, setIdx, Go.be16, sliceTo, sliceFrom, slice, idx, u16_pair, u32_quad]
+  simp [make, makeCap, putU16At, putU32At, setIdx, Go.be16, sliceTo, sliceFrom, slice, idx, u16_pair, u16_cons2, u32_quad]
 
 theorem P0x9102_roundtrip (fuel : Nat) (t q : model_P0x9102) (j : jt808_JTMessage) :
     ∃ body, model_P0x9102_Encode fuel t = X.ok body ∧
       ∃ r, model_P0x9102_Parse fuel q { j with Body := body } = X.ok (r, none) ∧ r.ChannelNo = t.ChannelNo ∧ r.ControlCmd = t.ControlCmd ∧ r.CloseAudioVideoData = t.CloseAudioVideoData ∧ r.StreamType = t.StreamType := by
   simp only [model_P0x9102_Encode, model_P0x9102_Parse, model_P0x9102_Parse_j1]
-  simp [make, makeCap, putU16At, putU32At, setIdx, Go.be16, sliceTo, sliceFrom, slice, idx, u16_pair, u32_quad]
+  simp [make, makeCap, putU16At, putU32At, setIdx, Go.be16, sliceTo, sliceFrom, slice, idx, u16_pair, u16_cons2, u32_quad]
 
 theorem P0x9105_roundtrip (fuel : Nat) (t q : model_P0x9105) (j : jt808_JTMessage) :
     ∃ body, model_P0x9105_Encode fuel t = X.ok body ∧
       ∃ r, model_P0x9105_Parse fuel q { j with Body := body } = X.ok (r, none) ∧ r.ChannelNo = t.ChannelNo ∧ r.PackageLossRate = t.PackageLossRate := by
   simp only [model_P0x9105_Encode, model_P0x9105_Parse, model_P0x9105_Parse_j1]
-  simp [make, makeCap, putU16At, putU32At, setIdx, Go.be16, sliceTo, sliceFrom, slice, idx, u16_pair, u32_quad]
+  simp [make, makeCap, putU16At, putU32At, setIdx, Go.be16, sliceTo, sliceFrom, slice, idx, u16_pair, u16_cons2, u32_quad]
 
 theorem P0x9207_roundtrip (fuel : Nat) (t q : model_P0x9207) (j : jt808_JTMessage) :
     ∃ body, model_P0x9207_Encode fuel t = X.ok body ∧
       ∃ r, model_P0x9207_Parse fuel q { j with Body := body } = X.ok (r, none) ∧ r.RespondSerialNumber = t.RespondSerialNumber ∧ r.UploadControl = t.UploadControl := by
   simp only [model_P0x9207_Encode, model_P0x9207_Parse, model_P0x9207_Parse_j1]
-  simp [make, makeCap, putU16At, putU32At, setIdx, Go.be16, sliceTo, sliceFrom, slice, idx, u16_pair, u32_quad]
+  simp [make, makeCap, putU16At, putU32At, setIdx, Go.be16, sliceTo, sliceFrom, slice, idx, u16_pair, u16_cons2, u32_quad]
 
 theorem T0x0001_roundtrip (fuel : Nat) (t q : model_T0x0001) (j : jt808_JTMessage) :
     ∃ body, model_T0x0001_Encode fuel t = X.ok body ∧
       ∃ r, model_T0x0001_Parse fuel q { j with Body := body } = X.ok (r, none) ∧ r.SerialNumber = t.SerialNumber ∧ r.ID = t.ID ∧ r.Result = t.Result := by
   simp only [model_T0x0001_Encode, model_T0x0001_Parse, model_T0x0001_Parse_j1]
-  simp [make, makeCap, putU16At, putU32At, setIdx, Go.be16, sliceTo, sliceFrom, slice, idx, u16_pair, u32_quad]
+  simp [make, makeCap, putU16At, putU32At, setIdx, Go.be16, sliceTo, sliceFrom, slice, idx, u16_pair, u16_cons2, u32_quad]
 
 theorem T0x1003_roundtrip (fuel : Nat) (t q : model_T0x1003) (j : jt808_JTMessage) :
     ∃ body, model_T0x1003_Encode fuel t = X.ok body ∧
       ∃ r, model_T0x1003_Parse fuel q { j with Body := body } = X.ok (r, none) ∧ r.EnterAudioEncoding = t.EnterAudioEncoding ∧ r.EnterAudioChannelsNumber = t.EnterAudioChannelsNumber ∧ r.EnterAudioSampleRate = t.EnterAudioSampleRate ∧ r.EnterAudioSampleDigits = t.EnterAudioSampleDigits ∧ r.AudioFrameLength = t.AudioFrameLength ∧ r.HasSupportedAudioOutput = t.HasSupportedAudioOutput ∧ r.VideoEncoding = t.VideoEncoding ∧ r.TerminalSupportedMaxNumberOfAudioPhysicalChannels = t.TerminalSupportedMaxNumberOfAudioPhysicalChannels ∧ r.TerminalSupportedMaxNumberOfVideoPhysicalChannels = t.TerminalSupportedMaxNumberOfVideoPhysicalChannels := by
   simp only [model_T0x1003_Encode, model_T0x1003_Parse, model_T0x1003_Parse_j1]
-  simp [make, makeCap, putU16At, putU32At, setIdx, Go.be16, sliceTo, sliceFrom, slice, idx, u16_pair, u32_quad]
+  simp [make, makeCap, putU16At, putU32At, setIdx, Go.be16, sliceTo, sliceFrom, slice, idx, u16_pair, u16_cons2, u32_quad]
 
 theorem T0x1206_roundtrip (fuel : Nat) (t q : model_T0x1206) (j : jt808_JTMessage) :
     ∃ body, model_T0x1206_Encode fuel t = X.ok body ∧
       ∃ r, model_T0x1206_Parse fuel q { j with Body := body } = X.ok (r, none) ∧ r.RespondSerialNumber = t.RespondSerialNumber ∧ r.Result = t.Result := by
   simp only [model_T0x1206_Encode, model_T0x1206_Parse, model_T0x1206_Parse_j1]
-  simp [make, makeCap, putU16At, putU32At, setIdx, Go.be16, sliceTo, sliceFrom, slice, idx, u16_pair, u32_quad]
+  simp [make, makeCap, putU16At, putU32At, setIdx, Go.be16, sliceTo, sliceFrom, slice, idx, u16_pair, u16_cons2, u32_quad]
 
 end JT.Gen.GoModel
